@@ -67,6 +67,29 @@ Definition write (C : circ) (tv : target * Qc) : circ :=
 Definition adapt (C : circ) (pmap : list (list target)) (row : list Qc) : circ :=
   fold_left write (flat_map (fun kv => map (fun tg => (tg, snd kv)) (fst kv)) (combine pmap row)) C.
 
+(* What adapt_circuit does with an edge target given as (source, target, idx): it looks the edge up WITH idx but hands only
+   (source, target, {var: val}) to CircuitTemplate.update_var, which calls get_edge(source, target) = parallel edge 0.
+   TW j is the j-th declared edge; first_same es j is the first declared edge with the same source and target.
+   fx = true: idx is passed through (proposed repair). *)
+Definition st (e : nat * nat * Qc) : nat * nat := (fst (fst e), snd (fst e)).
+Fixpoint index_st (p : nat * nat) (l : list (nat * nat)) : nat :=
+  match l with
+  | [] => O
+  | q :: l' => if Nat.eqb (fst p) (fst q) && Nat.eqb (snd p) (snd q) then O else S (index_st p l')
+  end.
+Definition first_same (es : list (nat * nat * Qc)) (j : nat) : nat :=
+  match nth_error (map st es) j with Some p => index_st p (map st es) | None => j end.
+Definition write_gen (fx : bool) (C : circ) (tv : target * Qc) : circ :=
+  match fst tv with
+  | TW j => write C (TW (if fx then j else first_same (edges C) j), snd tv)
+  | _ => write C tv
+  end.
+Definition adapt_gen (fx : bool) (C : circ) (pmap : list (list target)) (row : list Qc) : circ :=
+  fold_left (write_gen fx) (flat_map (fun kv => map (fun tg => (tg, snd kv)) (fst kv)) (combine pmap row)) C.
+(* guard: every swept edge is parallel edge 0 of its (source, target) pair *)
+Definition idx_guard (C : circ) (pmap : list (list target)) : bool :=
+  forallb (fun tg => match tg with TW j => Nat.eqb (first_same (edges C) j) j | _ => true end) (concat pmap).
+
 (* ------------------------------------------------------------------------------------------ the assembled network *)
 Definition gedge := ((nat * nat) * (nat * nat) * Qc)%type.     (* (block, node) -> (block, node), weight *)
 Record net := { comps : list circ; gedges : list gedge }.
@@ -88,12 +111,14 @@ Fixpoint ntraj (dt : Qc) (N : net) (X : list (list Qc)) (j n : nat) : list (list
   match n with O => [] | S n' => X :: ntraj dt N (neuler_step dt N j X) (S j) n' end.
 
 (* grid_search: the returned table and, per time point, per row, the state of that row's sub-circuit *)
-Definition grid_impl (C : circ) (pmap : list (list target)) (vals : list (list Qc)) (permute : bool) (dt : Qc) (n : nat)
+Definition grid_impl_gen (fx : bool) (C : circ) (pmap : list (list target)) (vals : list (list Qc)) (permute : bool) (dt : Qc) (n : nat)
   : option (list (list Qc) * list (list (list Qc))) :=
   match linearize 0 vals permute with
   | None => None
-  | Some rows => let Cs := map (adapt C pmap) rows in Some (rows, ntraj dt (assemble Cs) (map x0 Cs) 0 n)
+  | Some rows => let Cs := map (adapt_gen fx C pmap) rows in Some (rows, ntraj dt (assemble Cs) (map x0 Cs) 0 n)
   end.
+Definition fix_idx : bool := false.       (* the code as it is; true once the repair of the ignored idx has landed *)
+Definition grid_impl := grid_impl_gen fix_idx.
 (* Spec: every row on its own *)
 Definition grid_spec (C : circ) (pmap : list (list target)) (rows : list (list Qc)) (dt : Qc) (n : nat)
   : list (list (list Qc)) :=
